@@ -26,7 +26,7 @@ pub const SIGMA: &[&str] = &[
     // operator words
     "and", "or", "not", "xor", "div", "mod", "shl", "shr", "is", "as", "nil",
     // comments
-    "{c}", "(*c*)", "//c\n", "// c  \n", "{c\nd}",
+    "{c}", "(*c*)", "//c\n", "// c  \n", "{c\nd}", "//d",
     // directives
     "{$ifdef A}", "{$if B}", "{$else}", "{$elseif C}", "{$endif}", "{$r+}",
     // toggles
@@ -39,6 +39,8 @@ pub const SIGMA: &[&str] = &[
 
 pub const GAPS3: &[&str] = &["", " ", "\n"];
 pub const GAPS5: &[&str] = &["", " ", "\n", "\n\n\n", "  \t "];
+/// with a lone CR (not a line break for the formatter, but a blank) and CRLF
+pub const GAPS8: &[&str] = &["", " ", "\n", "\n\n\n", "  \t ", "\r", "\r ", "\r\n  "];
 
 /// contexts: `%` is replaced by the soup
 pub const CONTEXTS: &[&str] = &[
@@ -288,3 +290,26 @@ pub fn scaling_input(kind: usize, n: usize) -> String {
     }
 }
 pub const SCALING_KINDS: usize = 16;
+
+/// a handful of large inputs (sizes beyond every u8 / u16 counter of the pipeline)
+pub fn large_inputs() -> Vec<String> {
+    let n = 70_000;
+    vec![
+        "a;".repeat(n),
+        "a;\n".repeat(n),
+        format!("a{}b", "\n".repeat(n)),
+        format!("a{}b", " ".repeat(n)),
+        format!("a{}b;", "\r\n".repeat(n)),
+        format!("{};", "x".repeat(n)),
+        format!("// {}\na;", "c".repeat(n)),
+        format!("{{ {} }} a;", "c\n".repeat(n)),
+        format!("x := '{}';", "s".repeat(n)),
+        format!("x := {}1;", "1 + ".repeat(n / 4)),
+        format!("f({}a);", "a, ".repeat(n / 4)),
+        format!("{}x;{}", "begin ".repeat(300), " end;".repeat(300)),
+        format!("x := '''\n{}  ''';", "  m\n".repeat(n / 4)),
+        format!("{}\n", "{$ifdef A} a; {$endif}\n".repeat(3000)),
+        format!("type T = class\n{}end;", "  f: Integer;\n".repeat(n / 8)),
+        format!("{}a;", "\u{3000}".repeat(n)),
+    ]
+}
